@@ -318,6 +318,7 @@ func init() {
 		x.nonASCIIFor(3000 * x.scale)
 		x.exhaustiveSmall(allSS, []string{"a", "K", "\xff", "\x80", "�", "\xe4\xb8", "世", "\xc3", "ſ", "\xed\xa0\x80", "\xf0\x90"}, 3, 2)
 		relC06(x)
+		x.guardedAPI()
 	}
 	props["C07"] = func(x *Ctx) {
 		x.ratioSweep(allSS, true)
